@@ -73,7 +73,8 @@ def jobs(pid, tier):
                     vrt('C02', [r'wake1_.*_(val|exc|async)', r'wake2_(coro-poll|wait-cb|hasv-sync|coro-coro|cb-cb)_(val|exc|drop|async)'], bound=2, workers=2, **R),
                     vrt('C07', [r'mx2_.*_(dis-dis|dtor-awt|awt-move|move-move)_r1', r'mx3_f[012]_r[03]', r'mxpool_.*'], bound=2, workers=4, **R),
                     vrt('C09', [r'q_p1_c2_.*', r'q_p2_c1_(block|coro)', r'lq_l1_p2_.*'], bound=2, workers=4, **R),
-                    vrt('C11', [r'pool_w[12]_(coawait|runfn|runfnbig|detached|detachedbig)_(stop|selfstop)', r'pool_w2_(coawait-runfn|runfnbig-detached)_stop'], bound=2, workers=2, **R),
+                    vrt('C11', [r'pool_w[12]_(coawait|runfn|runfnbig|detached|detachedbig)_(stop|selfstop)', r'pool_w2_(coawait-runfn|runfnbig-detached)_stop',
+                                 r'pool_w[12]_(coawait|runfn|detached)_racestop'], bound=2, workers=2, **R),
                     vrt('C12', [r'sch_(thread|pool)_(5-10|10-5)(_cancel0)?'], bound=2, workers=4, **R),
                     vrt('C16', [r'pub1_.*', r'pub2_all_(coro-block|coro-poll)_pub-batch2-close'], bound=2, workers=4, **R),
                     vrt('C17', [r'sf1_.*', r'sf2_promfn_val_(wait-coro|coro-drop|copydrop-poll)_.*'], bound=2, workers=2, **R),
@@ -87,7 +88,7 @@ def jobs(pid, tier):
                 vrt('C02', [r'wake3_.*'], bound=2, workers=16, **R),
                 vrt('C07', [r'mx[23]_.*'], bound=3, workers=8, **R),
                 vrt('C09', [r'q_p1_.*', r'q_p2_c1_.*', r'lq_.*'], bound=3, workers=8, **R),
-                vrt('C11', [r'pool_w[12]_(coawait|runfn|runfnbig|detached|detachedbig)(-(coawait|runfn|runfnbig|detached|detachedbig))?_(stop|dtor|selfstop)'], bound=2, workers=8, **R),
+                vrt('C11', [r'pool_w[12]_(coawait|runfn|runfnbig|detached|detachedbig)(-(coawait|runfn|runfnbig|detached|detachedbig))?_(stop|dtor|selfstop|racestop)'], bound=2, workers=8, **R),
                 vrt('C12', [r'sch_.*'], bound=2, workers=8, **R),
                 vrt('C16', [r'pub1_.*', r'pub2_(?!.*poll-poll).*'], bound=2, workers=8, **R),
                 vrt('C17', [r'sf.*'], bound=2, workers=8, **R),
